@@ -409,6 +409,11 @@ package zygo
 //@ C01,C02,C04 assert an-empty-begin-is-not-compiled-to-nothing @before call GenerateBegin[0]: len(arg1) > 0
 //@ func (*Generator).GenerateNewScope
 //@ C01,C02,C04 ensures an-empty-scope-block-has-a-value: r0 == nil && len(expressions) == 0 ==> len(gen.instructions) == old(len(gen.instructions)) + 1 && typeis(gen.instructions[len(gen.instructions)-1], PushInstr)
+// printing terminates: a printer that recurses into the values a container holds asks the print
+// state whether it is already inside that container (a script can make a hash or an array contain
+// itself; without the question the recursion exhausts the stack, and that kills the process, no
+// recover helps). Printers of containers no script can make cyclic are listed.
+//@ cycleguard C01 SexpString | (*PrintState).GetSeen | (*PrintState).SetSeen | (*SexpPair).SexpString, (*SexpArraySelector).SexpString, (*SexpHashSelector).SexpString, (*SexpField).SexpString, (*SexpFunction).SexpString, (*SexpLazyArg).SexpString, (*SexpPointer).SexpString, (*SexpError).SexpString, (*RecordDefn).SexpString, (*SexpInterfaceDecl).SexpString, (*SexpClosureEnv).SexpString
 // mdef: every target slot is filled with a symbol before the value is compiled; the bind
 // instruction hands each one to BindSymbol, which dereferences it
 //@ func (*Generator).GenerateMultiDef
